@@ -3,6 +3,7 @@ from __future__ import annotations
 
 import contextlib
 import io
+import itertools
 import json
 
 from ..core import Batch, Finding, cN, cZ, cbool, clist, copt, cpair
@@ -35,9 +36,11 @@ Definition run_seven (x : stree * otree * costs) : list (option ext) :=
   let '(St, Ot, c) := x in
   let ords := match root_orders Ot with Some l => l | None => [] end in
   [ Some (cost c Ot (lca_rec Ot));
-    mincost (Some (reconcile_thl St c RALL Ot));
-    mincost (spfs St c RALL false ords Ot); mincost (spfs St c RALL true ords Ot);
-    mincost (uspfs St c RALL false Ot); mincost (uspfs St c RALL true Ot) ].
+    (* policy ANY, as in the implementation's run: the value of every cell is the same under every policy (C16), and with
+       ALL the tie sets of an input with a zero unit cost can take the model twenty minutes to carry along *)
+    mincost (Some (reconcile_thl St c RANY Ot));
+    mincost (spfs St c RANY false ords Ot); mincost (spfs St c RANY true ords Ot);
+    mincost (uspfs St c RANY false Ot); mincost (uspfs St c RANY true Ot) ].
 """
 
 NAMES = ["lca", "thl", "base_spfs", "ext_spfs", "base_uspfs", "superdtl"]
@@ -112,12 +115,32 @@ def gen_biased(rng, max_o, max_s, max_f):
     return c
 
 
+def _n_root_orders(case):
+    syns = [l["syn"] for _, l in R.otree_leaves(case["O"])]
+    fams = sorted({f for s_ in syns for f in s_})
+    if len(fams) <= 3:
+        return 1
+    n = 0
+    for perm in itertools.permutations(fams):
+        pos = {f: i for i, f in enumerate(perm)}
+        if all(all(pos[a] < pos[b] for a, b in zip(s_, s_[1:])) for s_ in syns):
+            n += 1
+    return n
+
+
 def batches(ctx):
     rng = ctx.rng
     quick = ctx.quick()
     cases = [gen_case(rng, 5, 4 if i % 2 else 3, 3, single=(i % 5 == 0)) for i in range(1600 if quick else 12000)]
     cases += [gen_biased(rng, 7, 4, 3) for _ in range(400 if quick else 4000)]
-    cases += [gen_biased(rng, 8, 4, 4) for _ in range(900 if quick else 6000)]   # deeper chains, four families: label decoding has inherited sets to hand down
+    # deeper chains, four families: label decoding has inherited sets to hand down.  The ordered model builds one table per
+    # compatible root order with 2^families masks per cell: inputs whose leaf orders leave more than three root orders open are
+    # redrawn (a four-family input with 24 open orders costs the model twenty minutes)
+    want = len(cases) + (900 if quick else 6000)
+    while len(cases) < want:
+        c = gen_biased(rng, 8, 4, 4)
+        if _n_root_orders(c) <= 3:
+            cases.append(c)
     ctx.dist["seven"] = {"cases": len(cases), "single_family": sum(1 for i in range(len(cases)) if i % 5 == 0),
                          "infinite_hgt": sum(1 for c in cases if c["costs"]["hgt"] == R.INF)}
     yield Batch(
